@@ -443,6 +443,31 @@ pub fn rare_chance(eps: f64) -> HNode {
     )
 }
 
+/// A chance outcome far rarer than machine epsilon (one node, or a chain of chance nodes whose
+/// probabilities multiply) whose subgame has stakes of the order of 1/probability, so that it
+/// carries an ordinary share of the value and of the regret of the whole game: nothing about the
+/// game is negligible although a reach probability is.
+pub fn rare_high_stakes(rng: &mut Rng) -> HNode {
+    // (weight of the rare outcome against 1, number of chained chance nodes): 2^-60, 2^-90 = (2^-30)^3, 2^-120
+    let (w, chain) = *rng.pick(&[(2f64.powi(-60), 1usize), (2f64.powi(-30), 3), (2f64.powi(-40), 3), (2f64.powi(-64), 1)]);
+    let total: f64 = (0..chain).map(|_| w / (1.0 + w)).product();
+    let stakes = (1.0 / total).log2().round().exp2();
+    let (n, m) = (rng.range(2, 3), rng.range(2, 3));
+    // the rare subgame: a random matrix game at high stakes
+    let mut node = player(
+        0,
+        "rare-row",
+        (0..n)
+            .map(|i| (format!("r{}", i), player(1, "rare-col", (0..m).map(|j| (format!("c{}", j), term(stakes * (rng.range(0, 16) as f64 - 8.0) / 4.0))).collect())))
+            .collect(),
+    );
+    for d in 0..chain {
+        let other = if d + 1 == chain { matching_pennies() } else { term((rng.range(0, 8) as f64 - 4.0) / 4.0) };
+        node = chance(None, vec![(w, node), (1.0, other)]);
+    }
+    node
+}
+
 /// Games in which one player has no decision, or nobody has
 pub fn trivial_games() -> Vec<HNode> {
     vec![
@@ -689,7 +714,7 @@ pub fn shared_chance_fan_below(rng: &mut Rng, k: usize, small: bool) -> HNode {
 }
 
 pub fn structured(rng: &mut Rng, which: usize) -> (String, HNode) {
-    match which % 18 {
+    match which % 19 {
         0 => ("matching_pennies".into(), matching_pennies()),
         1 => ("rps".into(), rps(1.0)),
         2 => {
@@ -741,6 +766,7 @@ pub fn structured(rng: &mut Rng, which: usize) -> (String, HNode) {
             let k = rng.range(4, 10);
             (format!("shared_chance_fan(k={})", k), shared_chance_fan(rng, k))
         }
+        18 => ("rare_high_stakes".into(), rare_high_stakes(rng)),
         _ => ("centipede_deep".into(), centipede(rng.range(100, 300))),
     }
 }
@@ -748,7 +774,7 @@ pub fn structured(rng: &mut Rng, which: usize) -> (String, HNode) {
 /// Workload mix used by most properties: mostly G1, some G2. Returns (description, tree).
 pub fn any_game(rng: &mut Rng, size: usize) -> (String, HNode) {
     if rng.chance(0.2) {
-        let w = rng.below(17); // deep centipede (13) only on request
+        let w = rng.below(18); // deep centipede (13) only on request
         structured(rng, if w >= 13 { w + 1 } else { w })
     } else {
         let par = GenParams::random(rng, size);
